@@ -67,8 +67,20 @@ def _gen_class(rng, name, base=None, base_has_defaults=False, taken=()):
     body = []
     if rng.random() < 0.15:
         # user-defined pickling protocol: must be preserved
-        body.append("def __getstate__(self): return {f.name: getattr(self, f.name) for f in dataclasses.fields(self)}")
-        body.append("def __setstate__(self, st):\n        for k, v in st.items(): object.__setattr__(self, k, v)")
+        shape = rng.choice(["dict", "tuple", "renamed", "versioned"])
+        if shape == "dict":
+            body.append("def __getstate__(self): return {f.name: getattr(self, f.name) for f in dataclasses.fields(self)}")
+            body.append("def __setstate__(self, st):\n        for k, v in st.items(): object.__setattr__(self, k, v)")
+        elif shape == "tuple":
+            # positional state: only the user's own __setstate__ can read it back
+            body.append("def __getstate__(self): return tuple(getattr(self, f.name) for f in dataclasses.fields(self))")
+            body.append("def __setstate__(self, st):\n        for f, v in zip(dataclasses.fields(self), st): object.__setattr__(self, f.name, v)")
+        elif shape == "renamed":
+            body.append("def __getstate__(self): return {'f_' + f.name: getattr(self, f.name) for f in dataclasses.fields(self)}")
+            body.append("def __setstate__(self, st):\n        for k, v in st.items(): object.__setattr__(self, k[2:], v)")
+        else:
+            body.append("def __getstate__(self): return (1, {f.name: getattr(self, f.name) for f in dataclasses.fields(self)})")
+            body.append("def __setstate__(self, st):\n        for k, v in st[1].items(): object.__setattr__(self, k, v)")
     if rng.random() < 0.15:
         body.append("def double(self): return 2")
         body.append("KONST = 7")
